@@ -147,7 +147,7 @@ def simpler_cases(case):
         k = next(iter(op))
         body = op[k]
         # simpler parameters
-        for field, simple in (("place", 0), ("panic_at", 0), ("enc_fail_at", 0), ("de_fail_at", 0), ("stack", False), ("uninit", False), ("spare", 0), ("mutation", "None"), ("via_from", False)):
+        for field, simple in (("place", 0), ("panic_at", 0), ("enc_fail_at", 0), ("de_fail_at", 0), ("stack", False), ("uninit", False), ("spare", 0), ("mutation", "None"), ("via_from", False), ("take_world", False)):
             if field in body and body[field] != simple:
                 c = copy.deepcopy(case)
                 c["ops"][i][k][field] = simple
